@@ -12,7 +12,9 @@ ASSUMPTIONS = ['a flat list has no stated orientation: for a 1-D array addressed
                'a lone index 0 on a 1-D array may give the whole array or an error',
                'MATCH type 1/-1 with duplicates: any position holding the extremal value is accepted',
                'MATCH wildcards: * and ? only; every other character (incl. [ ] ! -) is literal; ~ is not generated',
-               'arrays are homogeneous (numbers or text) and lookup values are of the same kind']
+               'arrays are homogeneous (numbers or text) and lookup values are of the same kind',
+               'MATCH without regard to case: which letters beyond the simple lower-case mapping count as the same (sharp s and SS, the small sigmas, ligatures) is not stated; cases are kept only when the literal '
+               'letters of the lookup text fold alike under lower() and casefold() and, without wildcards, both foldings select the same item (skip class case-folding-not-stated); a ? stands for one character']
 
 
 def supply(arr, how, env_kw, name='v_arr', rng='B2:D9'):
